@@ -465,9 +465,10 @@ def _report_failure(prop, tier, seed, repo, ob, res, failed, labels, replay_dir,
             if info and info["failed_points"]:
                 found = info["failed_points"][0]
                 break
-    if found is None and failed and all(g.get("shim_exception") for g in failed):
-        # an exception that surfaced inside the shim and that the real code does not reproduce: the model is at fault
-        return ("checker-error", ob, ["exception inside the symbolic shim not reproduced on the real code: %s" % failed[0].get("detail", "")])
+    if found is None and ob.numeric and failed and all(g.get("kind") == "returns" and "shim_exception" in g for g in failed):
+        # the only failure is an exception during the symbolic run (inside the shim, or an attribute/method the shim lacks) that the
+        # real code does not reproduce at any sampled input: the model is at fault, not the repository
+        return ("checker-error", ob, ["exception during symbolic execution not reproduced on the real code: %s" % failed[0].get("detail", "")])
     path = _write_replay(replay_dir, prop, ob, tier, seed, found, verifier_output, found is not None)
     lab = labels if found is None else sorted({g["label"] for g in found["goals"]} | set(labels))
     kf = finding_for(known, prop, ob.id, labels)
